@@ -1204,7 +1204,7 @@ def entryCover : List EntryCover := [
   ⟨"_morph.disk_2d", [``C10_disk_2d_in_bounds], [``C11_disk_guards_imply_pre, ``C11_disk_2d_safe], "safe", ""⟩,
   ⟨"_morph.close_holes", [``C10_close_holes_seeding_in_bounds, ``C10_stack_flood_in_bounds, ``C10_close_holes_flood_terminates, ``C10_position_stack_in_bounds, ``C10_alloc_fill_defined], [``C11_2d_guards_imply_pre, ``C11_close_holes_safe], "safe", ""⟩,
   ⟨"_morph.cwatershed", [``C10_cwatershed_in_bounds, ``C10_cwatershed_table_ok], [``C11_cwatershed_guards_imply_pre], "pre", "priority queue by contract"⟩,
-  ⟨"_morph.distance_multi", [``C10_distance_multi_in_bounds, ``C10_distance_multi_needs_neighbour, ``C10_position_queue_in_bounds], [], "bounds", "TERMINATION of the queue loop is open (a pixel is re-queued when its distance decreases); direct native call only"⟩,
+  ⟨"_morph.distance_multi", [``C10_distance_multi_in_bounds, ``C10_distance_multi_terminates, ``C10_distance_multi_needs_neighbour, ``C10_position_queue_in_bounds], [], "bounds", "needs a Bc with a set non-centre element (not guarded); direct native call only (no public wrapper reaches it)"⟩,
   ⟨"_morph.hitmiss", [``C10_hitmiss_in_bounds, ``C10_hitmiss_margin_test_sufficient], [``C11_hitmiss_guards_imply_pre, ``C11_hitmiss_safe], "safe", ""⟩,
   ⟨"_morph.majority_filter", [``C10_majority_in_bounds, ``C10_alloc_window_defined], [``C11_majority_guards_imply_pre, ``C11_majority_safe], "safe", ""⟩,
   ⟨"_thin.thin", [``C10_thin_in_bounds, ``C10_alloc_thin_buffer_defined], [``C11_thin_safe], "safe", "`coordinates_delta` / `fill_data` offsets come from the generated element tables"⟩,
